@@ -25,13 +25,28 @@ def coq_input(case):
             f"{core.clist(core.cbytes(bytes.fromhex(p)) for p in case['packets'])})")
 
 
+def views_ok(pkt):
+    """the header view is the first seven items, the user-data view the rest (same keys, same value objects, same order)"""
+    items = list(pkt.items())
+    try:
+        h, u = list(pkt.header.items()), list(pkt.user_data.items())
+    except Exception:  # noqa: BLE001
+        return False
+    same = lambda a, b: len(a) == len(b) and all(ka == kb and va is vb for (ka, va), (kb, vb) in zip(a, b))  # noqa: E731
+    return same(h, items[:7]) and same(u, items[7:])
+
+
 def item_out(x, mismatches):
     from space_packet_parser import packets
     from space_packet_parser.exceptions import UnrecognizedPacketTypeError
     if isinstance(x, UnrecognizedPacketTypeError):
         pd = x.partial_data
+        if not views_ok(pd):
+            return [9, docs.env_out(pd), bytes(pd.raw_data)]       # an item kind the model never produces
         return [1, docs.env_out(pd), bytes(pd.raw_data)]
     if isinstance(x, packets.CCSDSPacket):
+        if not views_ok(x):
+            return [9, docs.env_out(x), bytes(x.raw_data)]
         pos, n = x.raw_data.pos, 8 * len(x.raw_data)
         warned = (pos, n) in mismatches
         return [0, docs.env_out(x), pos, warned, bytes(x.raw_data)]
